@@ -348,7 +348,38 @@ def _impl_plain(case):
     obs.append(_describes_py(o["host"], other, rule.rc.raw))
     obs.append([] if o["remaps"] is not None else
                [[] if g is None else (1 if _exact_py(g, o["host"], other) else 0) for g in o["glued"]])
+    obs.append(_default_ok_py(o["A"], o["B"], o["tpl"], bool(case["invert"])))      # hypothesis of C04_identity_glue_default
     return obs
+
+
+def _default_ok_py(A, B, tpl, inv):
+    """plain-networkx reading of 'the reaction is written the default-mode way' (model: default_okb)"""
+    def isH(g, n):
+        return n in g and g.nodes[n].get("element") == "H"
+    for n, d in A.nodes(data=True):
+        if n not in B or int(d.get("hcount", 0)) != int(B.nodes[n].get("hcount", 0)) or int(d.get("hcount", 0)) < 0:
+            return 0
+    for g in (A, B):
+        for h in g.nodes:
+            if isH(g, h):
+                nb = list(g.neighbors(h))
+                if not nb or any(isH(g, x) for x in nb):
+                    return 0
+    for h in A.nodes:
+        if isH(A, h):
+            if h not in tpl:
+                return 0
+            for g in (A, B):
+                for u, v in g.edges():
+                    if h in (u, v) and not tpl.has_edge(u, v):
+                        return 0
+    gs, hs = (1, 0) if inv else (0, 1)
+    for h, d in tpl.nodes(data=True):
+        if d["typesGH"][gs][0] == "H":
+            for side in (0, 1):
+                if not any(tpl[h][x]["order"][side] > 0 and tpl.nodes[x]["typesGH"][side][0] != "H" for x in tpl.neighbors(h)):
+                    return 0
+    return 1
 
 
 def _pair_wf_py(A, B):
@@ -599,7 +630,7 @@ def nontrivial(case, obs):
 def distribution(cases, obss):
     d = dict(mode={}, template={}, direction={}, strategy={}, variant={}, skipped=0, identity_in_raw=0, regenerated_graph_level=0,
              explicit_rematch_path=0, outside_centre_change=0, corpus={}, distinct_reactions=0, comp_guard_region=0,
-             rule_describes_pair={"E": 0, "I": 0}, glued_is_pair_before_explicit_h={"E": 0, "I": 0})
+             rule_describes_pair={"E": 0, "I": 0}, glued_is_pair_before_explicit_h={"E": 0, "I": 0}, default_okb={"E": 0, "I": 0})
     rx = set()
     d["history_scripts"] = {}
     d["history_steps"] = 0
@@ -626,6 +657,8 @@ def distribution(cases, obss):
         if len(o) >= 15 and pre.get("mode") in ("E", "I"):
             d["rule_describes_pair"][pre["mode"]] += 1 if o[13] else 0
             d["glued_is_pair_before_explicit_h"][pre["mode"]] += 1 if (o[14] and o[14][0] == 1) else 0
+            if len(o) >= 16:
+                d["default_okb"][pre["mode"]] += 1 if o[15] else 0
         d["identity_in_raw"] += 1 if o[5] else 0
         d["regenerated_graph_level"] += 1 if o[8] else 0
         d["explicit_rematch_path"] += 1 if o[2] else 0
